@@ -11,6 +11,7 @@ Follows the Go code statement by statement; core Lean only.
   Row.Merge, rowSegment.Merge,
   mergeSegmentIterator.next              row.go       (reducer of every bitmap call, executeBitmapCall)
   bool OR reducer                        executor.go  executeClearRow / executeSetRow
+  mapReduce with failover, shardsByNode  executor.go  transition system over response events (mrStep)
   mapReduce / mapperLocal                executor.go  result = fold of reduceFn over arrival order,
                                                        starting from nil (= zero value)
 int64 / uint64 are modelled as Int / Nat (no wrap-around: counts are bounded by 2^20 per shard
@@ -190,5 +191,98 @@ def reduceAll {α : Type} (f : α → α → α) (nil : α) (arrivals : List α)
 the coordinator reduces node results, again from nil, in their arrival order. -/
 def mapReduce {α : Type} (f : α → α → α) (nil : α) (groups : List (List α)) : α :=
   reduceAll f nil (groups.map (reduceAll f nil))
+
+/-! ### `executor.mapReduce` with failover, as a transition system over response events.
+
+```go
+nodes = clone(cluster nodes);  mapper(nodes, shards)        // one request per node of shardsByNode
+result, shardN := nil, 0
+for resp := range ch {
+    if resp.err != nil {
+        nodes = nodes.Filter(resp.node)
+        err := mapper(nodes, resp.shards)                  // regroup exactly the failed shards
+        if err == errShardUnavailable { return nil, resp.err }
+        continue
+    }
+    result = reduceFn(result, resp.result)
+    shardN += len(resp.shards)
+    if shardN >= len(shards) { return result }
+}
+```
+Nodes and shards are numbers; `owners s` is `Cluster.ShardNodes(index, s)` in replica order. -/
+
+/-- One request in flight: the goroutine `mapper` started for `node` with `shards`. -/
+structure Req where
+  node : Nat
+  shards : List Nat
+deriving DecidableEq, Repr, Inhabited
+
+/-- `m[node] = append(m[node], shard)`. -/
+def addShard (m : List Req) (n s : Nat) : List Req :=
+  match m with
+  | [] => [⟨n, [s]⟩]
+  | r :: rest => if r.node = n then ⟨n, r.shards ++ [s]⟩ :: rest else r :: addShard rest n s
+
+/-- `shardsByNode`: every shard goes to its first owner that is still in `nodes`;
+`none` = `errShardUnavailable` (nothing is started then). -/
+def shardsByNode (nodes : List Nat) (owners : Nat → List Nat) : List Nat → List Req → Option (List Req)
+  | [], m => some m
+  | s :: rest, m =>
+    match (owners s).find? (fun n => nodes.contains n) with
+    | none => none
+    | some n => shardsByNode nodes owners rest (addShard m n s)
+
+/-- The loop state of `mapReduce`. -/
+structure MRState (α : Type) where
+  nodes : List Nat      -- nodes not yet filtered out
+  pending : List Req    -- requests started by `mapper` that have not answered yet
+  acc : α               -- `result`
+  shardN : Nat
+deriving DecidableEq, Repr
+
+inductive MROut (α : Type) where
+  | running (s : MRState α)
+  | done (a : α)
+  | unavailable         -- `mapper` returned errShardUnavailable: the query fails
+  | hang                -- waits on the channel with nothing in flight (until the context is cancelled)
+deriving DecidableEq, Repr
+
+/-- What a node answers for its shards: `mapperLocal` folds the shard results from nil. -/
+def nodeResult {α : Type} (f : α → α → α) (e : α) (val : Nat → α) (shards : List Nat) : α :=
+  reduceAll f e (shards.map val)
+
+/-- The first `mapper` call. -/
+def mrStart {α : Type} (e : α) (nodes : List Nat) (owners : Nat → List Nat) (shards : List Nat) : MROut α :=
+  match shardsByNode nodes owners shards [] with
+  | none => .unavailable
+  | some reqs => .running ⟨nodes, reqs, e, 0⟩
+
+/-- One response event: `ev.1` picks which request in flight answers next (any completion
+order), `ev.2 = true` = it answers with its result, `false` = it answers with an error. -/
+def mrStep {α : Type} (f : α → α → α) (e : α) (val : Nat → α) (owners : Nat → List Nat) (total : Nat)
+    (s : MRState α) (ev : Nat × Bool) : MROut α :=
+  if s.pending.isEmpty then .hang else
+  let i := ev.1 % s.pending.length
+  let req := s.pending.getD i default
+  let pend := s.pending.eraseIdx i
+  if ev.2 then
+    let acc := f s.acc (nodeResult f e val req.shards)
+    let n := s.shardN + req.shards.length
+    if n ≥ total then .done acc else .running ⟨s.nodes, pend, acc, n⟩
+  else
+    let nodes := s.nodes.filter (fun n => n ≠ req.node)
+    match shardsByNode nodes owners req.shards [] with
+    | none => .unavailable
+    | some reqs => .running ⟨nodes, pend ++ reqs, s.acc, s.shardN⟩
+
+def mrRun {α : Type} (f : α → α → α) (e : α) (val : Nat → α) (owners : Nat → List Nat) (total : Nat) :
+    MROut α → List (Nat × Bool) → MROut α
+  | .running s, ev :: evs => mrRun f e val owners total (mrStep f e val owners total s ev) evs
+  | o, _ => o
+
+/-- A whole query: shards, cluster nodes, ownership, response events. -/
+def mapReduceFailover {α : Type} (f : α → α → α) (e : α) (val : Nat → α) (nodes : List Nat)
+    (owners : Nat → List Nat) (shards : List Nat) (evs : List (Nat × Bool)) : MROut α :=
+  mrRun f e val owners shards.length (mrStart e nodes owners shards) evs
 
 end PV.C17
